@@ -7,13 +7,17 @@ from harness.props import c14
 EPOCH = pydt.datetime(1, 1, 1)
 
 
-def dt_bytes(us, zone):
+STATUS = [0x00, 0x00, 0x01, 0x80, 0x0F, 0x02, 0x8F, 0x00]
+
+
+def dt_bytes(us, zone, ident=0):
     """12-byte date-time for `us` microseconds after 0001-01-01 (multiple of 10 ms); zone 0 = naive,
-    otherwise UTC offset = zone - 900 minutes."""
+    otherwise UTC offset = zone - 900 minutes.  The clock-status byte varies with the cell (invalid, doubtful, summer time...):
+    a transmitted timestamp is a timestamp whatever its status says."""
     dt = EPOCH + pydt.timedelta(microseconds=us)
     dev = 0x8000 if zone == 0 else (-(zone - 900)) % 65536
     return dt.year.to_bytes(2, "big") + bytes([dt.month, dt.day, 0xFF, dt.hour, dt.minute, dt.second,
-                                               dt.microsecond // 10000]) + dev.to_bytes(2, "big") + b"\x00"
+                                               dt.microsecond // 10000]) + dev.to_bytes(2, "big") + bytes([STATUS[ident % len(STATUS)]])
 
 
 def stamp_of(dt):
@@ -73,7 +77,7 @@ class C15(fw.Prop):
                         ids[b""] = 2
                         return FALSY[c[1]]
                     return c[1]
-                b = dt_bytes(c[2], c[3])
+                b = dt_bytes(c[2], c[3], c[1])
                 ids[b] = c[1]
                 return b
             parser = ProfileGenericBufferParser(capture_objects=caps, capture_period=period)
@@ -97,16 +101,31 @@ class C15(fw.Prop):
                             return ("a", [])
                         # the value id travels in different integer types (negative for the signed ones); read back by magnitude
                         kind = ("u32", "i64", "i32", "u16", "i16", "u64")[c[1] % 6]
+                        if kind == "i16" and c[1] > 32767:
+                            kind = "i32"                   # (the id has to fit the type it travels in)
+                        if kind == "u16" and c[1] > 65535:
+                            kind = "u32"
                         if kind.startswith("i"):
-                            return (kind, -c[1] if c[1] < 30000 else -(c[1] % 30000))
-                        return (kind, c[1] if kind != "u16" else c[1] % 65536)
-                    b = dt_bytes(c[2], c[3])
+                            return (kind, -c[1])
+                        return (kind, c[1])
+                    b = dt_bytes(c[2], c[3], c[1])
                     ids[b] = c[1]
                     return ("o", b)
                 data = c14.ref_encode(("a", [("s", [to_tree(c) for c in r]) for r in rows]))
                 if d.get("long_count") and data[1] < 0x80:
                     # the number of rows written in the long form (0x81 n / 0x82 00 n), as some meters do for every length
                     data = data[:1] + (bytes([0x81, data[1]]) if d["long_count"] == 1 else bytes([0x82, 0x00, data[1]])) + data[2:]
+                # parsing is a function of the bytes: buffers cut short in the middle of an element, or holding a type the library
+                # does not decode, parsed before (by this and by another parser object) do not influence it
+                other = ProfileGenericBufferParser(capture_objects=caps, capture_period=period)
+                for bad in (data[:len(data) // 2], data[:-1], b"\x01\x01\x02\x02\x0a\x03abc\x11\x05", data[:3]):
+                    for prs in (other, parser):
+                        try:
+                            prs.parse_bytes(bad)
+                        except fw._Timeout:
+                            raise
+                        except BaseException:  # noqa
+                            pass
                 out = parser.parse_bytes(data)
             elif d.get("via_profile"):
                 # through the profile-generic object of the COSEM layer (always the same logical name, as one meter model
@@ -115,7 +134,9 @@ class C15(fw.Prop):
                 from dlms_cosem.protocol.xdlms.selective_access import CaptureObject
                 sm = d.get("sort_method")
                 inst = pg.ProfileGeneric(logical_name=cosem.Obis(1, 0, 99, 1, 0, 255), capture_objects=[CaptureObject(a, 0) for a in caps],
-                                         capture_period=period, sort_method=None if sm is None else pg.SortMethod(sm))
+                                         capture_period=period, sort_method=None if sm is None else pg.SortMethod(sm),
+                                         # (what the profile object says about its fill level is not what was transmitted)
+                                         entries_in_use=d.get("entries_in_use"), profile_entries=d.get("profile_entries"))
                 out = pg.ProfileGeneric.DYNAMIC_CONVERTERS[2](inst, [[to_py(c) for c in r] for r in rows])
             else:
                 out = parser.parse_entries([[to_py(c) for c in r] for r in rows])
@@ -237,6 +258,8 @@ class C15(fw.Prop):
                 yield self.make_case(dict(d, via_bytes=True, long_count=1 + k % 2))
             if k % 4 == 1:
                 yield self.make_case(dict(d, via_profile=True, sort_method=rng.choice([None, 1, 2, 3, 4, 5, 6])))
+                yield self.make_case(dict(d, via_profile=True, sort_method=rng.choice([None, 1, 2]), entries_in_use=rng.choice([0, 1, max(nrows - 1, 0), nrows, nrows + 5]),
+                                          profile_entries=rng.choice([None, 0, nrows, 1000])))
             if k % 5 == 2:
                 yield self.make_case(dict(d, used_before=True))
             if nrows and k % 4 == 0:
